@@ -147,7 +147,7 @@ pub fn run(o: &Opts) -> Report {
         one(&mut drv, &mut rep, p[1].parse().unwrap(), p[2].parse().unwrap(), ci, p[4] == "pred=1", &f(p[5]), &f(p[6]), &f(p[7]), &f(p[8]));
         return rep;
     }
-    rep.rule = "all 8 subsets of {ICC, EXIF, XMP} x payload lengths {1,2,3,10,255,256 (+65537 thorough)} x 4 colour types x predictor on/off x random images up to 9x9: real WebPEncoder::encode bytes and write_all sequence vs EncContainer.encode (on the VP8L payload from the encode_frame hook), RIFF size, even padding, determinism, crate decoder and libwebp WebPDemux returning every payload. distinct_nontrivial = distinct cases carrying at least one metadata payload".into();
+    rep.rule = "all 8 subsets of {ICC, EXIF, XMP} x payload lengths {1,2,3,10,255,256 (+65537 thorough)} x 4 colour types x predictor on/off x random images (small squares, and thin images with one side in {255,256,257,300,511,512,1000,4096,16383,16384}): real WebPEncoder::encode bytes and write_all sequence vs EncContainer.encode (on the VP8L payload from the encode_frame hook), RIFF size, even padding, determinism, crate decoder and libwebp WebPDemux returning every payload. distinct_nontrivial = distinct cases carrying at least one metadata payload".into();
     let mut rng = Rng::new(o.seed ^ 0xC09);
     let mut lens: Vec<usize> = vec![1, 2, 3, 10, 255, 256];
     if o.thorough() {
@@ -160,8 +160,15 @@ pub fn run(o: &Opts) -> Report {
             for r in 0..reps {
                 for ci in 0..4u64 {
                     let (_, bpp, _, _) = color_of(ci);
-                    let w = rng.range(1, 9) as u32;
-                    let h = rng.range(1, 9) as u32;
+                    // sizes: small squares, and long thin images reaching every byte of the 24-bit
+                    // canvas fields (255/256/257, 4096, 16383, 16384) in either dimension
+                    let big = *rng.pick(&[255u32, 256, 257, 300, 511, 512, 1000, 4096, 16383, 16384]);
+                    let (w, h) = match n % 4 {
+                        0 => (rng.range(1, 9) as u32, rng.range(1, 9) as u32),
+                        1 => (big, rng.range(1, 2) as u32),
+                        2 => (rng.range(1, 2) as u32, big),
+                        _ => (rng.range(1, 40) as u32, rng.range(1, 40) as u32),
+                    };
                     let data = rng.bytes((w * h) as usize * bpp);
                     let mk = |rng: &mut Rng, on: bool, l: usize| if on { rng.bytes(l) } else { vec![] };
                     let icc = mk(&mut rng, subset & 1 != 0, len);
